@@ -411,7 +411,18 @@ def main(argv=None):
     wall = args.wall or plan["wall"]
     t0 = time.monotonic()
     agg = batch(prop, base_seed, n_runs, wall, args.workers, opts={"tier": args.tier})
+    # built-in determinism probe: the first runs again, in other processes, with another chunking
+    recheck = min(int(os.environ.get("VERIF_RECHECK", "48")), n_runs)
+    nondet = []
+    if recheck and not agg["violations"] and not agg["harness"]:
+        again = batch(prop, base_seed, recheck, wall, max(1, args.workers // 2), opts={"tier": args.tier}, chunk=5, stop_on_violation=False)
+        nondet = [i for i in range(recheck) if i in agg["digests"] and agg["digests"][i] != again["digests"].get(i)]
+        agg["extra"]["determinism_probe_runs_repeated"] = recheck
+        agg["extra"]["determinism_probe_mismatches"] = len(nondet)
     wall_s = time.monotonic() - t0
+    if nondet:
+        print(f"HARNESS-ERROR: runs {nondet[:10]} did not repeat exactly (event-log digests differ between two executions of the same seed)")
+        return 2
     if agg["harness"]:
         h = agg["harness"][0]
         print(f"HARNESS-ERROR run index={h['index']} seed={h['seed']}: {h['error']}")
